@@ -229,8 +229,18 @@ def run_stack(case, v):
         trace_decoy(case, a, b)
         geo["traced_after_a_medium_with_the_same_boundaries"] = True
     sols = list(LayeredRayTracer(a, b, ice).solutions)
+    top_, bot_ = float(case["ice"]["layers"][0]["range"][1]), float(case["ice"]["layers"][-1]["range"][0])
     for p in sols:
         check_chain(v, p, a, b, geo)
+        # the outer surfaces reflect only when an index is declared beyond them
+        for s1, s2 in zip(p.paths[:-1], p.paths[1:]):
+            d1, d2 = np.asarray(s1.received_direction, float), np.asarray(s2.emitted_direction, float)
+            zj = float(s1.to_point[2])
+            if np.sign(d1[2]) != np.sign(d2[2]) and (abs(zj - top_) < 1e-9 or abs(zj - bot_) < 1e-9):
+                declared = case["ice"].get("above") if abs(zj - top_) < 1e-9 else case["ice"].get("below")
+                v.check(declared is not None, "no layered path reflects off an outer surface that has no index beyond it", depth=zj, index_above=case["ice"].get("above"), index_below=case["ice"].get("below"), **geo)
+                fr_ = np.abs(np.array(p.fresnel, dtype=complex))
+                v.check(bool(np.all(np.isfinite(fr_))), "Fresnel factors of a layered path are finite", fresnel=[float(x) for x in fr_], **geo)
     return {"geometry": geo, "solutions": len(sols), "legs": [len(p.paths) for p in sols]}, len(sols) > 0
 
 
